@@ -118,7 +118,13 @@ func inProcess(src string, countStates bool) (o outcome, err error) {
 	return o, err
 }
 
-func process(src string) (o outcome, err error) {
+func process(src string) (o outcome, err error) { return processIn(src, "") }
+
+var grammarName = regexp.MustCompile(`^grammar\s+([a-z][a-z0-9_]*)`)
+
+// processIn runs the binary in a fresh process; pre describes what exists in the output directory before the run:
+// "" nothing, "dir" a non-empty <out>/<name>, "file" a file <out>/<name>, "empty" an empty directory <out>/<name>.
+func processIn(src, pre string) (o outcome, err error) {
 	dir, err := os.MkdirTemp("", "c15proc")
 	if err != nil {
 		return o, err
@@ -127,6 +133,18 @@ func process(src string) (o outcome, err error) {
 	out := filepath.Join(dir, "out")
 	if err := os.Mkdir(out, 0o755); err != nil {
 		return o, err
+	}
+	if m := grammarName.FindStringSubmatch(src); m != nil && pre != "" {
+		target := filepath.Join(out, m[1])
+		switch pre {
+		case "dir":
+			_ = os.Mkdir(target, 0o755)
+			_ = os.WriteFile(filepath.Join(target, "keep.txt"), []byte("keep\n"), 0o644)
+		case "empty":
+			_ = os.Mkdir(target, 0o755)
+		case "file":
+			_ = os.WriteFile(target, []byte("in the way\n"), 0o644)
+		}
 	}
 	file := filepath.Join(dir, "in.ebnf")
 	if err := os.WriteFile(file, []byte(src), 0o644); err != nil {
@@ -281,6 +299,23 @@ func checkSpec(src string, withProcess bool) (first outcome, err error) {
 		if (first.status == "ok") != (p1.status == "exit-0") {
 			return first, fmt.Errorf("in-process generation ends with %s but the binary with %s\nspecification:\n%s", first.status, p1.status, src)
 		}
+		// the same options and the same state of the output directory: an occupied <out>/<name>
+		if first.status == "ok" {
+			for _, pre := range []string{"dir", "file", "empty"} {
+				q1, err := processIn(src, pre)
+				if err != nil {
+					return first, err
+				}
+				q2, err := processIn(src, pre)
+				if err != nil {
+					return first, err
+				}
+				rec.Count("runs_into_an_occupied_output_location", 2)
+				if q1.status != q2.status || q1.diag != q2.diag || !sameFiles(q1.files, q2.files) {
+					return first, fmt.Errorf("two fresh processes on the same input, with the same pre-existing %q at <out>/<name>, differ:\n--- run 1 (%s):\n%s\n--- run 2 (%s):\n%s\nspecification:\n%s", pre, q1.status, q1.diag, q2.status, q2.diag, src)
+				}
+			}
+		}
 	}
 	return first, nil
 }
@@ -391,6 +426,39 @@ func TestRepeatedRunsAgree(t *testing.T) {
 	})
 }
 
+// manyDiagnostics: a dozen and more problems of one kind in one specification (a limit, a batch or a page of a
+// report must not make the selection or the order depend on the run).
+func manyDiagnostics() []string {
+	var out []string
+	names := []string{"alpha", "beta", "gamma", "delta", "eps", "zeta", "eta", "theta", "iota", "kappa", "lambda", "mu", "nu", "xi", "omicron", "pi", "rho", "sigma"}
+	for _, n := range []int{11, 14, 18} {
+		var a, b, c, d, e strings.Builder
+		a.WriteString("grammar g;\nstart = \"x\"")
+		b.WriteString("grammar g;\nstart = \"x\"")
+		c.WriteString("grammar g;\n")
+		d.WriteString("grammar g;\n")
+		e.WriteString("grammar g;\n")
+		var cu, du, eu []string
+		for i := 0; i < n; i++ {
+			fmt.Fprintf(&a, " | %s", names[i])                                                                              // undefined non-terminals
+			fmt.Fprintf(&b, " | %s", strings.ToUpper(names[i])+"_T")                                                        // undefined tokens
+			fmt.Fprintf(&c, "%s_A = \"v%d\"\n%s_B = \"v%d\"\n", strings.ToUpper(names[i]), i, strings.ToUpper(names[i]), i) // same value twice
+			cu = append(cu, strings.ToUpper(names[i])+"_A", strings.ToUpper(names[i])+"_B")
+			fmt.Fprintf(&d, "%s_P = /%c{3,%d}/\n", strings.ToUpper(names[i]), 'a'+i, i%3) // invalid patterns
+			du = append(du, strings.ToUpper(names[i])+"_P")
+			fmt.Fprintf(&e, "%s_D = $NOPE%d\n", strings.ToUpper(names[i]), i) // unknown predefined names
+			eu = append(eu, strings.ToUpper(names[i])+"_D")
+		}
+		a.WriteString(";\n")
+		b.WriteString(";\n")
+		fmt.Fprintf(&c, "start = %s;\n", strings.Join(cu, " | "))
+		fmt.Fprintf(&d, "start = %s;\n", strings.Join(du, " | "))
+		fmt.Fprintf(&e, "start = %s;\n", strings.Join(eu, " | "))
+		out = append(out, a.String(), b.String(), c.String(), d.String(), e.String())
+	}
+	return out
+}
+
 func TestFixedSpecs(t *testing.T) {
 	rec.Begin(t)
 	rec.Rule(rule + ruleMore)
@@ -426,6 +494,7 @@ func TestFixedSpecs(t *testing.T) {
 		// several tokens used without definition, several unknown predefined names
 		"grammar g;\nAA = $NOPE\nBB = $NADA\nCC = $NIX\nstart = AA BB CC DD EE FF;\n",
 	}
+	specs = append(specs, manyDiagnostics()...)
 	for _, s := range specs {
 		o, err := checkSpec(s, true)
 		rec.Case(s, true, "fixed", "status_"+o.status)
